@@ -93,6 +93,7 @@ func (delegate *Delegate) NotifyMsg(msgBytes []byte) {
 		ctx := context.WithValue(
 			context.WithValue(context.Background(), internal.ContextServerID("ServerID"), string(msg.ServerID)),
 			internal.ContextConnID("ConnectionID"), msg.ConnId)
+		ctx = context.WithValue(ctx, "Database", msg.Database)
 
 		key := string(msg.Content)
 
@@ -110,6 +111,7 @@ func (delegate *Delegate) NotifyMsg(msgBytes []byte) {
 		ctx := context.WithValue(
 			context.WithValue(context.Background(), internal.ContextServerID("ServerID"), string(msg.ServerID)),
 			internal.ContextConnID("ConnectionID"), msg.ConnId)
+		ctx = context.WithValue(ctx, "Database", msg.Database)
 
 		cmd, err := internal.Decode(msg.Content)
 		if err != nil {
